@@ -202,6 +202,13 @@ func runCheck(o *checkOpts) int {
 		}
 		r := P.verifyFunc(fn, fc, parseMode(fc.Mode))
 		results = append(results, r)
+		if fc.verifiedDep() && r.Ctx != nil {
+			src := ""
+			if fn.Pos().IsValid() {
+				src = filepath.Dir(P.Fset.Position(fn.Pos()).Filename)
+			}
+			r.Ctx.assumed["A-DEPSRC: "+r.Func+" is a function of a dependency, verified from the source the build uses ("+src+", the module version go.mod pins; read-only module cache), contract in /verif/contracts/external"] = true
+		}
 		if r.Trusted != "" {
 			trusted = append(trusted, r.Func+": "+r.Trusted)
 			continue
